@@ -108,7 +108,7 @@ def _push_table_one(chk, F, rule, cfg, fn):
         for e in p.calls(r'Vec::push$'):
             if mentions(e.data[2][0], lambda x: x[0] == 'field' and x[2] == 'call_patterns'):
                 el = strip(e.data[2][1])
-                ok = is_call(el, r'MockAssembler::new_call_pattern$') and mentions(el, lambda x: x == ('param', 0, 3))
+                ok = (is_call(el, r'MockAssembler::new_call_pattern$') and mentions(el, lambda x: x == ('param', 0, 3))) or _pattern_of_builder(el)
                 chk.ob(rule, 'the appended element is the pattern built from the pushed builder', ok, config=cfg, fn=fn, site='push-elem', what='appended element', found=show(el)[:200])
         for e in p.calls(r'VacantEntry::insert$|BTreeMap::insert$'):
             fm = strip(e.data[2][2] if e.data[1].endswith('BTreeMap::insert') else e.data[2][1])
@@ -116,7 +116,7 @@ def _push_table_one(chk, F, rule, cfg, fn):
             okm = strip(d.get('pattern_match_mode', ('unk', ''))) == ('field', ('param', 0, 3), 'pattern_match_mode') or field_path(d.get('pattern_match_mode', ('unk', ''))) == (('param', 0, 3), ['pattern_match_mode'])
             oki = strip(d.get('info', ('unk', ''))) == ('param', 0, 2)
             arr = [w for w in p.effects if w.kind == 'write' and strip(w.data[1])[0] == 'agg' and strip(w.data[1])[1] == 'array']
-            one = len(arr) == 1 and len(strip(arr[0].data[1])[4]) == 1 and is_call(strip(strip(arr[0].data[1])[4][0][1]), r'MockAssembler::new_call_pattern$')
+            one = len(arr) == 1 and len(strip(arr[0].data[1])[4]) == 1 and (is_call(strip(strip(arr[0].data[1])[4][0][1]), r'MockAssembler::new_call_pattern$') or _pattern_of_builder(strip(strip(arr[0].data[1])[4][0][1])))
             chk.ob(rule, 'a new method entry holds (info, mode of this builder, [this pattern])', okm and oki and one, config=cfg, fn=fn, site='insert-value', what='new entry contents',
                    found={'mode': show(d.get('pattern_match_mode', ('unk', ''))), 'info': show(d.get('info', ('unk', ''))), 'one_element_vec': one})
     return fn, paths
@@ -271,3 +271,43 @@ def terminal_clauses_use_own_info(chk, F, rule, cfg):
                         found = show(info)
             chk.ob(rule, 'terminal clause registers its pattern under its own MockFn (F::info())', ok, config=cfg, fn=fn, site='sink.push.info', what='info of another type', found=found, expected='F::info()')
     chk.floor(rule, 'Sink::push call sites in terminal clauses', n, 3, config=cfg)
+
+
+def _pattern_of_builder(el):
+    """el is a CallPattern literal whose matcher and responders are the pushed builder's (the pattern built from this very builder,
+    spelled out where the reference tree calls new_call_pattern)"""
+    el = strip(el)
+    if not (el[0] == 'agg' and el[1] == 'adt' and el[2] == 'call_pattern::CallPattern'):
+        return False
+    d = dict(el[4])
+    return all(field_path(d.get(k, ('unk', ''))) == (('param', 0, 3), [k]) for k in ('input_matcher', 'responders'))
+
+
+def pattern_builds(F, inline=None):
+    """how a finished pattern is built from a builder: (function analysed, parameter index of the builder, [(path, CallPattern aggregate)]).
+    On the reference tree this is `MockAssembler::new_call_pattern(self, builder)`. Where that function no longer exists as a unit (its steps
+    were moved onto other types and are called from `Sink::push` directly) the whole registration `Sink::push(self, info, builder)` is
+    analysed with its helpers opened up, and the pattern is the CallPattern literal built on the path."""
+    import facts as factsmod
+    pol = inline or (lambda f, d, n: f.kind in ('fn', 'assoc') and len(f.blocks) < 30 and not re.search(r'into_counter', f.defp))
+    try:
+        fn = F.fn('assemble::MockAssembler::new_call_pattern')
+        paths = symex.Interp(F, inline=pol).run(fn)
+        return fn, 2, [(p, strip(p.outcome[1]) if p.outcome[0] == 'return' else None) for p in paths]
+    except factsmod.FactsError:
+        pass
+    fn = F.fn('<assemble::MockAssembler as clause::term::Sink>::push')
+    bi = next((i for i in range(1, fn.arg_count + 1) if 'DynCallPatternBuilder' in fn.locals[i]['ty']), 3)
+    wide = lambda f, d, n: pol(f, d, n) or symex.is_new_helper(f)  # noqa: E731
+    out = []
+    for p in symex.Interp(F, inline=wide, max_depth=5).run(fn):
+        agg = None
+        for e in p.effects:
+            vals = list(e.data[2]) if e.kind == 'call' else ([e.data[1]] if e.kind == 'write' else [])
+            for v in vals:
+                for x in symex.subvalues(v):
+                    if isinstance(x, tuple) and x and x[0] == 'agg' and x[1] == 'adt' and x[2] == 'call_pattern::CallPattern':
+                        agg = agg or x
+        if agg is not None:
+            out.append((p, agg))
+    return fn, bi, out
